@@ -1,6 +1,8 @@
 package implements
 
 import (
+	"go/types"
+
 	"github.com/a14e/gogreement/src/annotations"
 )
 
@@ -120,6 +122,11 @@ func checkImplementation(
 ) []InterfaceMethod {
 	var missing []InterfaceMethod
 
+	// A pointer to an interface type has an empty method set: nothing is implemented through it
+	if requirePointer && typeModel.UnderlyingType == "interface" {
+		return append(missing, iface.Methods...)
+	}
+
 	// Create index of type's methods
 	typeMethods := make(map[string]TypeMethod)
 	for _, method := range typeModel.Methods {
@@ -156,6 +163,12 @@ func checkImplementation(
 
 // signaturesMatch checks if type method matches interface method signature
 func signaturesMatch(typeMethod TypeMethod, ifaceMethod InterfaceMethod) bool {
+	// Both models were loaded from type-checked code: use Go's own notion of identical
+	// signatures (aliases, byte/uint8, any/interface{}, pointer depth, composite types ...)
+	if typeMethod.Sig != nil && ifaceMethod.Sig != nil {
+		return types.Identical(typeMethod.Sig, ifaceMethod.Sig)
+	}
+
 	// Check input count
 	if len(typeMethod.Inputs) != len(ifaceMethod.Inputs) {
 		return false
